@@ -17,6 +17,8 @@ CLAIMS = {
          "not decided: objects migrating between goroutines through sync.Pool; bodyStream/chunkedBodyWriter/clientConn resets and the Acquire/Release wrappers are not yet under contract; stale capacity beyond len is treated as unobservable; ownership (request and response of one context do not share trailer/body objects) is a precondition. Known finding: exiled flag survives reset", "3 C09"),
  "C07": ("normalizePath: for every dst/src (not sharing an array) the result starts with '/', contains no '//', '/./', '/../' and does not end in '/..' - unbounded proof by loop invariants; its helpers addLeadingSlash and decodeArgAppendNoPlus verified against append-style contracts",
          "not decided: equality with the decode-then-stack reference; CleanPath (not yet under contract); non-overlap of URI's internal buffers is assumed", "3 C07"),
+ "C12": ("RequestContext.Next/Abort with a ghost entry log (largest handler index entered, aborted flag): every handler entry has an index strictly greater than all earlier ones and inside the chain and happens only when Abort has not been called; Next returns only with the index past the chain; Abort sets the abort index; unknown handlers are covered by a rely condition that Next and Abort themselves are proved to satisfy; combineHandlers/Use/Group/handle/NoRoute/NoMethod/Engine.Use: the chain registered is a FRESH copy of group middleware followed by the route's handlers, shorter than the abort index, and allNoRoute/allNoMethod are engine middleware followed by the no-route/no-method handlers",
+         "assumed: a handler does not call SetHandlers/Reset on the live context; a panic from int8 wrap-around of the chain index is not recovered and followed by >= 127 further Next calls (partial correctness stops at the first panic); len(handlers) < 63 is a precondition of Next (established by combineHandlers); not decided: Engine.ServeHTTP's choice of chain, router lookup (C06)", "3 C12"),
 }
 NA = {
  "C06": "recursive pointer trie with back-pointers, goto/closure backtracking and a recursive priority-match specification; no contract within reach of this tool chain states or decides priority dispatch",
